@@ -2,6 +2,15 @@ import Verif.Props.C07
 import Verif.Props.C06
 import Verif.Props.C05
 import Verif.Props.C18
+import Verif.Props.C08
+import Verif.Proofs.C09Json
+import Verif.Proofs.C09Embed
+import Verif.Proofs.C09XmlMain
+import Verif.Proofs.C09SvgMain
+import Verif.Proofs.C09Css
+import Verif.Proofs.C09Html
+import Verif.Proofs.C09Js
+import Verif.Proofs.C09JsEmbed
 /-!
 # C09 — accepted input yields syntactically valid output that is accepted again
 
@@ -25,6 +34,20 @@ theorem json_valid_and_reaccepted (o : JsonOpts) (num : List Char → Int → Li
   obtain ⟨h2, hw2, _⟩ := Verif.Props.C07.C07_shape o num hg _ hw1 noWs
   exact ⟨_, _, h2, rfl, hw2⟩
 
+/-- **JSON, second pass is the identity** where the number writer reproduces its own outputs (`NumFix`: checked on the real
+    code at precision 0 by stage `c09-json-fixpoint`; trivially true with `KeepNumbers`, see `json_numfix_keep`): for every
+    well-formed value, decoration and option set the output of the first pass is mapped to itself by the second. -/
+theorem json_second_pass_fixed : type_of% @Verif.Proofs.C09Json.json_second_pass_fixed :=
+  @Verif.Proofs.C09Json.json_second_pass_fixed
+
+/-- `NumFix` holds for every number writer when numbers are kept -/
+theorem json_numfix_keep : type_of% @Verif.Proofs.C09Json.numFix_keep := @Verif.Proofs.C09Json.numFix_keep
+
+/-- idempotence is NOT claimed for `Precision > 0`: for the C08 model of `minify.Number`, `-67E-1` ↦ `-6.7` ↦ `-7` at
+    precision 1 (the first pass does not round a lexeme with an exponent) -/
+theorem json_numfix_precision_counterexample : type_of% @Verif.Proofs.C09Json.numFix_precision_counterexample :=
+  @Verif.Proofs.C09Json.numFix_precision_counterexample
+
 /-- **XML**: for every option set and every token stream of the lexer grammar, every emitted token is well-formed
     (no `<`, no bare `&`, quote-safe attribute literals) and no run of emitted character data contains `]]>`
     (re-export of C06 `xml_wellformed`, full strength since fix 9a0c504) -/
@@ -37,5 +60,292 @@ theorem svg_path_output_parses : type_of% @Verif.Props.C05.shorten_output_parses
 
 /-- **SVG path printer**: any well-formed group list lexes back to exactly its tokens -/
 theorem svg_path_lex_roundtrip : type_of% @Verif.Props.C05.path_lex_roundtrip := @Verif.Props.C05.path_lex_roundtrip
+
+/-! ## the leaf languages: numbers, data URLs, media types -/
+
+/-- **Numbers** (`minify.Number`, used by CSS, SVG, JS, JSON): for every lexeme of the number grammar and all precisions the
+    result is a lexeme of the same grammar — so the second application (with any precision) is defined on it and again
+    yields a number (corollary of C08 `number_grammar`) -/
+theorem number_output_reaccepted (s : List Char) (p q : Int) (hs : Verif.Spec.Num.isNumber s = true) :
+    Verif.Spec.Num.isNumber (Verif.Model.Num.number s p) = true ∧
+    Verif.Spec.Num.isNumber (Verif.Model.Num.number (Verif.Model.Num.number s p) q) = true :=
+  ⟨Verif.Props.C08.number_grammar s p hs,
+   Verif.Props.C08.number_grammar _ q (Verif.Props.C08.number_grammar s p hs)⟩
+
+/-- **Decimals** (`minify.Decimal`): the exponent-free number grammar is mapped into itself, twice -/
+theorem decimal_output_reaccepted (s : List Char) (p q : Int) (hs : Verif.Spec.Num.isDecimal s = true) :
+    Verif.Spec.Num.isDecimal (Verif.Model.Num.decimal s p) = true ∧
+    Verif.Spec.Num.isDecimal (Verif.Model.Num.decimal (Verif.Model.Num.decimal s p) q) = true :=
+  ⟨Verif.Props.C08.decimal_grammar s p hs,
+   Verif.Props.C08.decimal_grammar _ q (Verif.Props.C08.decimal_grammar s p hs)⟩
+
+example : Verif.Spec.Num.isNumber "+012.500e-3".toList = true ∧ Verif.Spec.Num.isDecimal "-0.50".toList = true := by decide
+
+/-- **Data URLs** (`minify.DataURI`, used for `url(data:…)` in CSS and URL attributes in HTML): outside the three syntactic
+    triggers of the open C18 findings, the result is the input or a data URL that the RFC 2397 reader parses to an equivalent
+    media type and exactly the payload the sub-minifier produced (re-export of C18 `dataURI_holds_partial`) -/
+theorem datauri_output_parses_partial : type_of% @Verif.Props.C18.dataURI_holds_partial :=
+  @Verif.Props.C18.dataURI_holds_partial
+
+/-- **Media types** (`minify.Mediatype`): the result is the input with white space outside quoted strings deleted and letters
+    outside quoted strings lower-cased; quoted strings are copied, so a closed quoted string stays closed -/
+theorem mediatype_output_spec : type_of% @Verif.Props.C18.mediatype_spec := @Verif.Props.C18.mediatype_spec
+
+/-! ## Xml (XML and SVG documents; `Proofs/C09XmlMain.lean`, `Proofs/C09SvgMain.lean`) -/
+
+/-- **XML tokeniser round trip** (specification side): every grammatical token stream in reader's view is read back
+    from its bytes by the independent XML 1.0 tokeniser exactly -/
+theorem xml_lex_roundtrip : type_of% @Verif.Proofs.C09Xml.xml_lex_roundtrip := @Verif.Proofs.C09Xml.xml_lex_roundtrip
+
+/-- **XML tokeniser soundness** (specification side): whatever the tokeniser returns is grammatical and is read back
+    from its own serialisation -/
+theorem xml_lex_sound : type_of% @Verif.Proofs.C09Xml.xml_lex_sound := @Verif.Proofs.C09Xml.xml_lex_sound
+
+/-- **XML, bytes level, no guard**: for every byte string the independent tokeniser accepts, the output of the model of
+    `xml.Minify` on its tokens is accepted again and re-tokenises to exactly the intended stream.  NOTE the front end here is
+    the SPECIFICATION tokeniser (PI data is one raw item); the real dependency lexer splits PI data into pseudo-attributes
+    and deviates on DOCTYPE/PI corner cases (K-C09-Xml-1, -4, -5) — for streams of the real lexer's shape use the guarded
+    `xml_output_relexes_partial` -/
+theorem xml_accepted_in_accepted_out : type_of% @Verif.Proofs.C09Xml.xml_accepted_in_accepted_out :=
+  @Verif.Proofs.C09Xml.xml_accepted_in_accepted_out
+
+/-- every finite sequence of passes (any options) over an accepted document is defined and ends in an accepted document -/
+theorem xml_passes_defined : type_of% @Verif.Proofs.C09Xml.xml_passes_defined := @Verif.Proofs.C09Xml.xml_passes_defined
+
+/-- **XML flagship** (guard: trigger of K-C09-Xml-1): for all options and all lexer-contract streams with grammatical
+    tokens, the output bytes of the model of `xml.Minify` re-tokenise to exactly the emitted stream (reader's view),
+    which is grammatical -/
+theorem xml_output_relexes_partial : type_of% @Verif.Proofs.C09Xml.xml_output_relexes_partial :=
+  @Verif.Proofs.C09Xml.xml_output_relexes_partial
+
+/-- the stream read back has exactly the markup skeleton (tags, attributes, CDATA, DOCTYPE, PI targets) and the bytes
+    of the emitted stream -/
+theorem xml_output_markup_exact : type_of% @Verif.Proofs.C09Xml.xml_output_markup_exact :=
+  @Verif.Proofs.C09Xml.xml_output_markup_exact
+
+/-- the unguarded flagship statement is false: `<a><?x k="?&gt;"?></a>` → `<a><?x k="?>"?></a>` (K-C09-Xml-1) -/
+theorem xml_output_relexes_counterexample : type_of% @Verif.Proofs.C09Xml.xml_output_relexes_counterexample :=
+  @Verif.Proofs.C09Xml.xml_output_relexes_counterexample
+
+/-- **XML second pass** (same guard): the stream read back from the output satisfies all hypotheses of the C06 and
+    C09 theorems again; the output of a second pass (any options) re-tokenises to its intended stream -/
+theorem xml_second_pass_defined : type_of% @Verif.Proofs.C09Xml.xml_second_pass_defined :=
+  @Verif.Proofs.C09Xml.xml_second_pass_defined
+
+/-- XML minification is not idempotent (`<a><![CDATA[ x ]]></a>` → `<a> x </a>` → `<a>x</a>`); no C09 violation -/
+theorem xml_idempotent_counterexample : type_of% @Verif.Proofs.C09Xml.xml_idempotent_counterexample :=
+  @Verif.Proofs.C09Xml.xml_idempotent_counterexample
+
+/-- **SVG `bracketWriter`**: `bw.n` is the number of `]` at the end of everything written -/
+theorem xml_svg_bracket_count : type_of% @Verif.Proofs.C09Xml.svg_bracket_count := @Verif.Proofs.C09Xml.svg_bracket_count
+
+/-- **SVG text branch**: for every `bw.n` and grammatical text token the written bytes are well-formed character
+    data and complete no `]]>` (outside `style` / without a CSS minifier; inside `style` these bytes go to the
+    sub-minifier) -/
+theorem xml_svg_text_wellformed : type_of% @Verif.Proofs.C09Xml.svg_text_wellformed :=
+  @Verif.Proofs.C09Xml.svg_text_wellformed
+
+/-- SVG text inside `style`, by contract `SubTextOk` on the sub-minifier -/
+theorem xml_svg_text_wellformed_sub : type_of% @Verif.Proofs.C09Xml.svg_text_wellformed_sub :=
+  @Verif.Proofs.C09Xml.svg_text_wellformed_sub
+
+/-- the contract is needed: a sub-minifier that only removes spaces creates `]]>` (K-C09-Xml-2 on the real code) -/
+theorem xml_svg_style_text_counterexample : type_of% @Verif.Proofs.C09Xml.svg_style_text_counterexample :=
+  @Verif.Proofs.C09Xml.svg_style_text_counterexample
+
+/-- **SVG CDATA branch**: text path safe for every sub-minifier with legal output; kept path a well-formed CDATA
+    section outside `style`, inside `style` by contract `NoCdEndOut` -/
+theorem xml_svg_cdata_wellformed : type_of% @Verif.Proofs.C09Xml.svg_cdata_wellformed :=
+  @Verif.Proofs.C09Xml.svg_cdata_wellformed
+
+/-- the contract is needed: removing spaces inside a kept `style` CDATA section creates `]]>` (K-C09-Xml-2) -/
+theorem xml_svg_cdata_kept_counterexample : type_of% @Verif.Proofs.C09Xml.svg_cdata_kept_counterexample :=
+  @Verif.Proofs.C09Xml.svg_cdata_kept_counterexample
+
+/-- **SVG attribute values**: the preprocessed value is a sequence of units; `EscapeAttrVal` of any sequence of
+    units is a well-formed literal with that normalised value -/
+theorem xml_svg_attr_wellformed : type_of% @Verif.Proofs.C09Xml.svg_attr_wellformed :=
+  @Verif.Proofs.C09Xml.svg_attr_wellformed
+
+/-- `EscapeAttrVal` does not repair a sub-minifier result with a bare `&` or `<` (K-C09-Xml-3 on the real code) -/
+theorem xml_svg_attr_contract_needed : type_of% @Verif.Proofs.C09Xml.svg_attr_contract_needed :=
+  @Verif.Proofs.C09Xml.svg_attr_contract_needed
+/-! ## Css -/
+
+/-- **CSS, declaration writer**: for all admissible values (`valsOk`: every lexeme a closed token of its type for the
+    independent tokeniser, function arguments pairwise safe), every `!important` flag and every context starting
+    with a stop code point, the independent CSS Syntax 3 tokeniser reads the bytes `writeDeclaration` writes as
+    exactly the tokens it was given: nothing merges, nothing splits (guard `sepOk` = known findings K-C09-CSS-1/2) -/
+theorem css_writer_retokenises : type_of% @Verif.Proofs.C09Css.css_writer_retokenises :=
+  @Verif.Proofs.C09Css.css_writer_retokenises
+
+/-- **CSS**: without the guard on neighbours inside functions the statement is false (`f(` `red` `10%` `)` is written
+    `f(red10%)`) -/
+theorem css_writer_retokenises_counterexample : type_of% @Verif.Proofs.C09Css.css_writer_retokenises_counterexample :=
+  @Verif.Proofs.C09Css.css_writer_retokenises_counterexample
+
+/-- **CSS, raw path**: for all admissible component lists (`rawOk`) the bytes `writeRaw` writes (values with brackets,
+    `a=b`, `!ie`, …; `/` and `*` kept apart) are read as exactly the components -/
+theorem css_raw_retokenises : type_of% @Verif.Proofs.C09Css.css_raw_retokenises :=
+  @Verif.Proofs.C09Css.css_raw_retokenises
+
+/-- **CSS, raw path**: without the guard on neighbours it is false: `<` `!` `--x` is written `<!--x` (K-C09-CSS-3) -/
+theorem css_raw_retokenises_counterexample : type_of% @Verif.Proofs.C09Css.css_raw_retokenises_counterexample :=
+  @Verif.Proofs.C09Css.css_raw_retokenises_counterexample
+
+/-- **CSS, declaration minifier of the model**: whenever `minifyDeclaration` is defined, not on the raw path and chose
+    admissible values, the bytes it writes read back as those values -/
+theorem css_declaration_retokenises : type_of% @Verif.Proofs.C09Css.css_declaration_retokenises :=
+  @Verif.Proofs.C09Css.css_declaration_retokenises
+
+/-- **CSS, declaration minifier of the model, raw path** -/
+theorem css_declaration_retokenises_raw : type_of% @Verif.Proofs.C09Css.css_declaration_retokenises_raw :=
+  @Verif.Proofs.C09Css.css_declaration_retokenises_raw
+
+/-- **CSS, second pass**: every token the independent tokeniser reads in a written declaration is again a closed
+    token of its type, none a bad-string or bad-url: the lexer contract holds again for the second pass -/
+theorem css_second_pass_tokens : type_of% @Verif.Proofs.C09Css.css_second_pass_tokens :=
+  @Verif.Proofs.C09Css.css_second_pass_tokens
+
+/-- **CSS, block structure**: a written value followed by `;` or `}` is read as bracket-balanced tokens without
+    bad-string/bad-url, then exactly the terminator: it neither swallows its terminator nor opens or closes a block -/
+theorem css_declaration_closed : type_of% @Verif.Proofs.C09Css.css_declaration_closed :=
+  @Verif.Proofs.C09Css.css_declaration_closed
+
+/-- **CSS, urls**: whatever passes the unquoting test of `minifyTokens` is, between `url(` and `)`, one closed url token
+    with exactly that value -/
+theorem css_url_closed : type_of% @Verif.Proofs.C09Css.css_url_closed := @Verif.Proofs.C09Css.css_url_closed
+
+/-- **CSS, strings**: without `\`+newline in it a closed string is left alone by `removeMarkupNewlines` -/
+theorem css_string_closed_partial : type_of% @Verif.Proofs.C09Css.css_string_closed_partial :=
+  @Verif.Proofs.C09Css.css_string_closed_partial
+
+/-- **CSS, strings**: in general `removeMarkupNewlines` changes the value: `"\31\<LF>2"` (`12`) becomes `"\312"`
+    (K-C09-CSS-11) -/
+theorem css_string_closed_counterexample : type_of% @Verif.Proofs.C09Css.css_string_closed_counterexample :=
+  @Verif.Proofs.C09Css.css_string_closed_counterexample
+/-! ## HTML -/
+
+/-- **HTML attribute values**: the bytes of `EscapeAttrVal` are read by the standard's tokenizer as one value in the form
+    chosen, ending where the bytes end, decoding to the value meant; unquoted only when conforming -/
+theorem html_attr_value_roundtrip : type_of% @Verif.Proofs.C09Html.html_attr_value_roundtrip :=
+  @Verif.Proofs.C09Html.html_attr_value_roundtrip
+
+/-- **HTML `&` ambiguity**: what html.go does to the references of a plain attribute value, then `EscapeAttrVal`, is read
+    back as the input value — guard = C03's open findings K-C03-3 (hex overflow), K-C03-13 (CR + LF reference) -/
+theorem html_attr_written_value_partial : type_of% @Verif.Proofs.C09Html.html_attr_written_value_partial :=
+  @Verif.Proofs.C09Html.html_attr_written_value_partial
+
+/-- the guard is needed (K-C03-3) -/
+theorem html_attr_written_value_counterexample : type_of% @Verif.Proofs.C09Html.html_attr_written_value_counterexample :=
+  @Verif.Proofs.C09Html.html_attr_written_value_counterexample
+
+/-- **HTML start tags**: `<name` + the attributes the model writes + `>` is read as ONE start tag with the attribute list
+    meant (names in order, values decoding to the values handed to `EscapeAttrVal`), not self-closing, for every option
+    set and every attribute branch of html.go; guards: names without `/`, no template attributes -/
+theorem html_start_tag_retokenises : type_of% @Verif.Proofs.C09Html.html_start_tag_retokenises :=
+  @Verif.Proofs.C09Html.html_start_tag_retokenises
+
+/-- the same for one step of the token loop, hypotheses on the lexer's start-tag token only -/
+theorem html_start_tag_step : type_of% @Verif.Proofs.C09Html.html_start_tag_step :=
+  @Verif.Proofs.C09Html.html_start_tag_step
+
+/-- **HTML raw-text elements** (script, style, iframe, textarea): the content the model writes does not end the element
+    early and the end tag ends it; guard: no `<!--` in a script (K-C09-HTML-8); contract `SubKeeps` on the sub-minifier -/
+theorem html_rawtext_end_stable_partial : type_of% @Verif.Proofs.C09Html.html_rawtext_end_stable_partial :=
+  @Verif.Proofs.C09Html.html_rawtext_end_stable_partial
+
+/-- without the `<!--` guard it is false (script-data-double-escaped state) -/
+theorem html_rawtext_end_stable_counterexample : type_of% @Verif.Proofs.C09Html.html_rawtext_end_stable_counterexample :=
+  @Verif.Proofs.C09Html.html_rawtext_end_stable_counterexample
+
+/-- **HTML comments**: every comment written is one comment token; guard K-C09-HTML-1, contract K-C09-HTML-3 -/
+theorem html_comment_closed_partial : type_of% @Verif.Proofs.C09Html.html_comment_closed_partial :=
+  @Verif.Proofs.C09Html.html_comment_closed_partial
+
+/-- `<!-->x-->` kept verbatim is not one comment (K-C09-HTML-1) -/
+theorem html_comment_closed_counterexample : type_of% @Verif.Proofs.C09Html.html_comment_closed_counterexample :=
+  @Verif.Proofs.C09Html.html_comment_closed_counterexample
+
+/-- **HTML, the whole output** (flagship): under the decidable guard `walk` (text pieces `textSafe`, comments `goodComment`,
+    good tag/attribute names, no template/svg/math token, raw-text content without its end tag and without `<!--` in a
+    script) the output of the model is the concatenation of its per-token pieces and re-tokenises, by the HTML standard,
+    to exactly what each piece is on its own — for every option set, sub-minifier and token stream -/
+theorem html_output_retokenises_partial : type_of% @Verif.Proofs.C09Html.html_output_retokenises_partial :=
+  @Verif.Proofs.C09Html.html_output_retokenises_partial
+
+/-- without the guard it is false: a removed comment between `<` and `b>` creates a tag (K-C09-HTML-4) -/
+theorem html_output_retokenises_counterexample : type_of% @Verif.Proofs.C09Html.html_output_retokenises_counterexample :=
+  @Verif.Proofs.C09Html.html_output_retokenises_counterexample
+
+/-- the same over the lexer grammar `lexShape` -/
+theorem html_output_retokenises_lexshape_counterexample :
+    type_of% @Verif.Proofs.C09Html.html_output_retokenises_lexshape_counterexample :=
+  @Verif.Proofs.C09Html.html_output_retokenises_lexshape_counterexample
+
+/-- **HTML text**: a text token without a raw `<` is written without `<` — `&lt;` / `&#60;` / `&#x3C;` / `&LT` stay escaped —
+    for all options (whole regenerated entity tables) -/
+theorem html_text_lt_stays_escaped : type_of% @Verif.Proofs.C09Html.html_text_lt_stays_escaped :=
+  @Verif.Proofs.C09Html.html_text_lt_stays_escaped
+
+/-- html.go's reference decoding creates a tag from the text `<&#98;>` (K-C09-HTML-10) -/
+theorem html_text_safe_not_preserved : type_of% @Verif.Proofs.C09Html.html_text_safe_not_preserved :=
+  @Verif.Proofs.C09Html.html_text_safe_not_preserved
+
+/-- **HTML second pass**: on every token stream the model returns bytes or `ext missing` -/
+theorem html_second_pass_defined : type_of% @Verif.Proofs.C09Html.html_second_pass_defined :=
+  @Verif.Proofs.C09Html.html_second_pass_defined
+
+/-- html.go is not idempotent (not a C09 violation) -/
+theorem html_idempotent_counterexample : type_of% @Verif.Proofs.C09Html.html_idempotent_counterexample :=
+  @Verif.Proofs.C09Html.html_idempotent_counterexample
+/-! ## JS -/
+
+/-- **JS, writer level**: for every token list of the C01 token alphabet without an impossible adjacency, the bytes
+    written by the writer model (`write`, `writeSpaceBeforeIdent`, `writeSpaceBefore`, `writeSpaceAfterIdent`,
+    `a-- >b`, `<! --`) lex back, with the independent lexer `Spec.C09JsLex`, to exactly these tokens -/
+theorem js_token_sep : type_of% @Verif.Proofs.C09Js.js_token_sep := @Verif.Proofs.C09Js.js_token_sep
+
+/-- **JS, grammar trees**: the terminal string of every derivation tree of the expression grammar (plain names and
+    strings) satisfies the hypotheses of `js_token_sep` -/
+theorem js_tree_tokens_safe : type_of% @Verif.Proofs.C09Js.js_tree_tokens_safe :=
+  @Verif.Proofs.C09Js.js_tree_tokens_safe
+
+/-- **JS, grammar trees**: hence what the writer produces for it is read back as exactly that terminal string -/
+theorem js_tree_relex : type_of% @Verif.Proofs.C09Js.js_tree_relex := @Verif.Proofs.C09Js.js_tree_relex
+
+/-- **JS, expression printer**: the output of the printer model `printT` (C01) is token-separated and derives the
+    printed tree in the independent grammar: valid, and re-lexed to the intended tokens -/
+theorem js_expr_relex : type_of% @Verif.Proofs.C09Js.js_expr_relex := @Verif.Proofs.C09Js.js_expr_relex
+
+/-- **JS, statement printer** (partial, guard = every printed expression tree is a grammar tree with plain names):
+    the bytes of the statement printer model are read back as exactly the tokens written -/
+theorem js_print_relex_partial : type_of% @Verif.Proofs.C09Js.js_print_relex_partial :=
+  @Verif.Proofs.C09Js.js_print_relex_partial
+
+/-- **JS inside HTML, writer level**: for every well-formed, goal-consistent token list of the C01 alphabet the bytes
+    of the JS writer model contain neither an appropriate end tag of `script` (no `</` at all) nor `<!--` -/
+theorem js_output_no_markup : type_of% @Verif.Proofs.C09JsEmbed.js_output_no_markup :=
+  @Verif.Proofs.C09JsEmbed.js_output_no_markup
+
+/-- **JS inside HTML, the contract discharged**: the JS fragment printer (any parser function, guarded statement
+    printer, pass-through otherwise) satisfies the contract `SubKeeps "script"` of the HTML minifier model -/
+theorem js_script_embed_keeps : type_of% @Verif.Proofs.C09JsEmbed.js_script_embed_keeps :=
+  @Verif.Proofs.C09JsEmbed.js_script_embed_keeps
+
+/-- **Embedded languages, composed**: an HTML `script` element whose payload is minified by the JS fragment printer is
+    read back by the HTML tokenizer as character tokens equal to the printer's output byte for byte, followed by the
+    element's end tag -/
+theorem html_script_with_js_fragment : type_of% @Verif.Proofs.C09JsEmbed.html_script_with_js_fragment :=
+  @Verif.Proofs.C09JsEmbed.html_script_with_js_fragment
+
+/-! ## embedded languages -/
+
+/-- **K-C09-3 on the model of the CSS declaration writer**: the value tokens `<` `/` `style` `>` — none contains `</style` —
+    are written `</style >`, an appropriate end tag of the enclosing HTML `style` element: the `SubKeeps` contract of
+    `html_rawtext_end_stable_partial` is false for the CSS writer (for the JS-fragment printer it is a theorem:
+    `js_script_embed_keeps`).  Real code: `<style>a{b:< /style >}</style><p>x</p>` ↦ `<style>a{b:</style >}</style><p>x`. -/
+theorem css_writer_creates_style_end_tag : type_of% @Verif.Proofs.C09Embed.css_writer_creates_style_end_tag :=
+  @Verif.Proofs.C09Embed.css_writer_creates_style_end_tag
 
 end Verif.Props.C09
